@@ -235,9 +235,23 @@ class Scheduler(object):
         t = self._thread_named(g['thread'])
         if t is not None and t.state == 'blocked':
           alts.append(('gate%d' % g['cost'], t, g))
-    if self.signals_left > 0 and self.threads[0].state != 'done' and (self.signal_enabled is None or self.signal_enabled()):
-      alts.append(('signal', self.threads[0]))
+    if self.signals_left > 0 and self.threads[0].state != 'done' and (self.signal_enabled is None or self.signal_enabled()) \
+        and self._signal_deliverable(self.threads[0]):
+      alts.append(('signal' if getattr(self, 'signal_cost', 1) else 'signal0', self.threads[0]))
     return alts
+
+  @staticmethod
+  def _signal_deliverable(main):
+    """Python runs signal handlers between bytecodes and inside interruptible blocking calls, never in the middle of
+    a C-level primitive: a handler that raises must not be able to cancel a lock release / event set that the
+    interpreter performs atomically.  The main thread's scheduling points before such operations are therefore not
+    delivery points (the signal is delivered at its next source-line point instead)."""
+    lab = main.label or ''
+    if getattr(main, 'with_exit', False):
+      return False
+    if main.state == 'blocked' or not lab.startswith(('lock.', 'rlock.', 'event.', 'cond.', 'queue.')):
+      return True          # blocked in a wait, at a source line, at thread start/join, asleep, at a harness yield point
+    return 'acquire' in lab or '.wait' in lab
 
   # ---- the switch ---------------------------------------------------------------
   def switch(self, me, label, blocking=False):
@@ -293,7 +307,7 @@ class Scheduler(object):
     if kind == 'timer':
       self.now = max(self.now, target.deadline)
       target.timed_out = True
-    elif kind == 'signal':
+    elif kind.startswith('signal'):
       self.signals_left -= 1
       self.pending_signal += 1
       # the main thread handles it when it next runs; make it runnable even if blocked
@@ -313,7 +327,14 @@ class Scheduler(object):
     if me.tid == 0 and self.pending_signal:
       self.pending_signal -= 1
       if self.signal_handler is not None:
+        # The handler runs on the main thread as ordinary runnable code, even if the signal found the thread blocked
+        # (in join, a lock or a sleep): it must be schedulable at its own scheduling points.  If it returns, the
+        # interrupted wait resumes; if it raises, the exception leaves the blocking call.
+        saved = (me.state, me.wait_pred, me.deadline, me.timed_out, me.label)
+        me.state, me.wait_pred, me.deadline = 'ready', None, None
         self.signal_handler()          # may raise KeyboardInterrupt into the main thread
+        if saved[0] == 'blocked':
+          me.state, me.wait_pred, me.deadline, me.timed_out, me.label = saved
     return None
 
   def _abort_all(self, me):
@@ -388,7 +409,7 @@ class Scheduler(object):
     if kind == 'timer':
       self.now = max(self.now, target.deadline)
       target.timed_out = True
-    elif kind == 'signal':
+    elif kind.startswith('signal'):
       self.signals_left -= 1
       self.pending_signal += 1
     self.trace.append((target.tid, kind, target.label))
@@ -690,8 +711,31 @@ def _thread_join(self, timeout=None):
     if lt is not None and (s is None or s.aborting):
       return _REAL['join'](self, 0.5)
     return _REAL['join'](self, timeout)
+  if getattr(lt, 'marked_stopped', False):
+    return
   s.switch(me, 'thread.join:%s' % type(self).__name__)
-  s.block_until(me, lambda: lt.state == 'done', timeout, 'thread.join.wait:%s' % type(self).__name__)
+  try:
+    s.block_until(me, lambda: lt.state == 'done', timeout, 'thread.join.wait:%s' % type(self).__name__)
+  except BaseException:
+    if JOIN_INTERRUPT_MARKS_STOPPED and lt.state != 'done':
+      # CPython <= 3.12 (bpo-45274 workaround in Thread._wait_for_tstate_lock): an exception raised by a signal
+      # handler inside join() releases the still-held tstate lock and calls _stop(), so the thread is reported
+      # finished from then on although it is still running.  The scheduler reproduces the interpreter it runs on.
+      lt.marked_stopped = True
+      vlog('join-interrupted-marks-stopped', lt.tid)
+    raise
+
+
+def _join_interrupt_marks_stopped():
+  import inspect  # pylint: disable=g-import-not-at-top
+  try:
+    src = inspect.getsource(threading.Thread._wait_for_tstate_lock)  # pylint: disable=protected-access
+  except (AttributeError, OSError, TypeError):
+    return False
+  return 'lock.locked()' in src and 'self._stop()' in src
+
+
+JOIN_INTERRUPT_MARKS_STOPPED = _join_interrupt_marks_stopped()
 
 
 def _thread_is_alive(self):
@@ -699,7 +743,7 @@ def _thread_is_alive(self):
   s = ACTIVE['sched']
   if lt is None or s is None:
     return _REAL['is_alive'](self)
-  return lt.state != 'done'
+  return lt.state != 'done' and not getattr(lt, 'marked_stopped', False)
 
 
 def _time():
@@ -755,8 +799,8 @@ def yield_point(label='yield'):
 
 
 def vlog(*ev):
-  s = ACTIVE['sched']
-  if s is not None:
+  s, me = current()
+  if s is not None and me is not None:     # (a thread left over from an earlier execution is not part of this one)
     s.events.append(ev)
 
 
@@ -770,9 +814,31 @@ def _line_cb(code, lineno):
   me.last_line = key
   if s.line_watch and code.co_name in s.line_watch:
     s.events.append(('line', me.name, code.co_name, lineno, s.now))
-  s.switch(me, 'L:%s:%d' % (code.co_name, lineno))
-  s.deliver_async(me)
+  # Leaving a with-block is reported as a line event of the `with` line *before* __exit__ is called.  CPython checks
+  # for signals / asynchronous exceptions after calls and on backward jumps, never between the end of the body and the
+  # __exit__ call, so an exception injected here would skip a lock release that cannot be skipped in reality.
+  hist = me.__dict__.setdefault('line_hist', {})
+  prev = hist.get(code)
+  hist[code] = lineno
+  me.with_exit = bool(prev is not None and prev > lineno and _is_with_line(code, lineno))
+  try:
+    s.switch(me, 'L:%s:%d' % (code.co_name, lineno))
+    if not me.with_exit:
+      s.deliver_async(me)
+  finally:
+    me.with_exit = False
   return None
+
+
+_WITH_LINES = {}
+
+
+def _is_with_line(code, lineno):
+  k = (code.co_filename, lineno)
+  if k not in _WITH_LINES:
+    import linecache  # pylint: disable=g-import-not-at-top
+    _WITH_LINES[k] = linecache.getline(code.co_filename, lineno).lstrip().startswith(('with ', 'async with '))
+  return _WITH_LINES[k]
 
 
 class Installed(object):
